@@ -303,18 +303,11 @@ fn u6_dua_self_adopted() {
 // Payload u8 (a payload with a Drop impl does not fit in CBMC's memory here); the call-out states are
 // observed from the table stand-in's Drop, which runs at the same program point as the members' values
 // are destroyed (`drop(inners)`).
-static mut GA: *const RcBox<u8> = core::ptr::null();
-static mut GB: *const RcBox<u8> = core::ptr::null();
-static mut GWA: usize = 0;
-static mut GWB: usize = 0;
-static mut OBS_CALLS: usize = 0;
-
-fn group_observer(_tag: u8) {
+fn register_member<T>(i: usize, rc: &Rc<T>, expect_weak: usize) {
     unsafe {
-        OBS_CALLS += 1;
-        let (a, b) = (&*GA, &*GB);
-        kani::assert(a.is_uninit() && b.is_uninit(), "U6.drop_cycle.callout.all_members_gone_before_any_value_dies");
-        kani::assert(a.weak() == GWA && b.weak() == GWB, "U6.drop_cycle.callout.no_member_released_before_last_value_dies");
+        vmap::OBS_STRONG[i] = rc.inner().strong_ref() as *const _;
+        vmap::OBS_WEAK[i] = rc.inner().weak_ref() as *const _;
+        vmap::OBS_EXPECT_WEAK[i] = expect_weak;
     }
 }
 
@@ -333,13 +326,8 @@ fn ring2(ca: usize, cb: usize, sa: usize, sb: usize, wa: usize, wb: usize) -> (R
     let mut m: HashMap<Link<u8>, usize> = HashMap::default();
     m.insert(fwd(&a), ca);
     m.insert(fwd(&b), cb);
-    unsafe {
-        GA = a.ptr.as_ptr();
-        GB = b.ptr.as_ptr();
-        GWA = wa;
-        GWB = wb;
-        vmap::DROP_OBSERVER = Some(group_observer);
-    }
+    register_member(0, &a, wa);
+    register_member(1, &b, wb);
     (a, b, m)
 }
 
@@ -361,7 +349,7 @@ fn u6_drop_cycle_ring2() {
     unsafe { drop_cycle(m) };
     kani::assert(a.inner().is_uninit() && b.inner().is_uninit(), "U6.drop_cycle.every_key_of_the_orphan_map_ends_gone");
     kani::assert(a.inner().weak() == wa - 1 && b.inner().weak() == wb - 1, "U6.drop_cycle.each_member_weak_minus_one_exactly_once");
-    kani::assert(unsafe { vmap::TAGGED_DROPS } == 2 && unsafe { OBS_CALLS } == 2, "U6.drop_cycle.each_member_table_released_exactly_once");
+    kani::assert(unsafe { vmap::TAGGED_DROPS } == 2, "U6.drop_cycle.each_member_table_released_exactly_once");
     kani::assert(c.inner().strong() == sc && c.inner().weak() == wc, "U6.drop_cycle.frame.non_member_counters_untouched");
     core::mem::forget((a, b, c));
 }
@@ -385,13 +373,8 @@ fn u6_drop_cycle_unequal_degree() {
     let mut m: HashMap<Link<u8>, usize> = HashMap::default();
     m.insert(fwd(&a), 1);
     m.insert(fwd(&b), 1);
-    unsafe {
-        GA = a.ptr.as_ptr();
-        GB = b.ptr.as_ptr();
-        GWA = wa;
-        GWB = wb;
-        vmap::DROP_OBSERVER = Some(group_observer);
-    }
+    register_member(0, &a, wa);
+    register_member(1, &b, wb);
     unsafe { drop_cycle(m) };
     kani::assert(a.inner().is_uninit() && b.inner().is_uninit(), "U6.drop_cycle.every_key_of_the_orphan_map_ends_gone");
     kani::assert(a.inner().weak() == wa - 1 && b.inner().weak() == wb - 1, "U6.drop_cycle.each_member_weak_minus_one_exactly_once");
